@@ -239,7 +239,7 @@ macro_rules! float_entries { ($v:ident, $F:ty, $ft:expr, $WD:ident) => {{
             ent!($v, "FisherF", $ft, "beyond-E", [m, n], FisherF::<F>::new(m, n).ok().and_then(b::<_, F>)); }
         for s in [ulp_up(ulp_up(1.0 as F)), huge] {
             ent!($v, "Zeta", $ft, "beyond-E", [s], Zeta::<F>::new(s).ok().and_then(bx::<_, F>)); }
-        for (n, s) in [(vhuge, 2.0 as F), (vhuge, 1.0), (huge, 0.5), (2.0, huge)] {
+        for (n, s) in [(vhuge, 2.0 as F), (vhuge, 1.0), (huge, 0.5), (2.0, huge), (F::INFINITY, 2.0), (F::INFINITY, 1.5), (F::INFINITY, 1.0625)] {
             ent!($v, "Zipf", $ft, "beyond-E", [n, s], Zipf::<F>::new(n, s).ok().and_then(bx::<_, F>)); }
         for l in [1.844e19 as F, tiny] {
             ent!($v, "Poisson", $ft, "beyond-E", [l], Poisson::<F>::new(l).ok().and_then(b::<_, F>)); }
@@ -256,7 +256,8 @@ macro_rules! float_entries { ($v:ident, $F:ty, $ft:expr, $WD:ident) => {{
         $v.push(Entry { family: "Dirichlet", ft: $ft, params: al.iter().map(|&x| x as f64).collect(), variant: var,
             make: Box::new(move || Dirichlet::<F>::new(&al2).ok().map(|d| Box::new($WD(d)) as Box<dyn Obj>)) });
     }
-    for ws in [vec![0.5 as F, 0.25, 0.25], vec![1e-3, 5.0, 0.0, 2.5, 1.0]] {
+    for ws in [vec![0.5 as F, 0.25, 0.25], vec![1e-3, 5.0, 0.0, 2.5, 1.0], vec![0.1, 0.2, 0.3], vec![0.3, 0.3, 0.4], vec![1.0 / 3.0; 3], vec![0.1; 7],
+               vec![0.7, 0.1, 0.1, 0.1], vec![1e-9, 1.0, 0.3], (1..=11).map(|i| 1.0 / i as F).collect()] {
         let w2 = ws.clone(); let w3 = ws.clone();
         $v.push(Entry { family: "WeightedAliasIndex", ft: $ft, params: ws.iter().map(|&x| x as f64).collect(), variant: "-",
             make: Box::new(move || WeightedAliasIndex::<F>::new(w2.clone()).ok().map(|d| Box::new(WN(d, std::marker::PhantomData::<usize>)) as Box<dyn Obj>)) });
@@ -273,19 +274,48 @@ macro_rules! float_tree_entries { ($v:ident, $F:ty, $ft:expr, $n:expr) => {{
             let mut rnd = crate::rng::Sm(0x7ee5 + k as u64 * 977);
             let len = 7 + rnd.below(9) as usize;
             let ws: Vec<$F> = (0..len).map(|_| (0.1 + (rnd.below(1 << 20) as f64 / (1u64 << 20) as f64) * 9.9) as $F).collect();
+            let mut ws = ws;
             let mut t = WeightedTreeIndex::<$F>::new(ws.iter()).ok()?;
             for _ in 0..(k % 4) {
                 let i = rnd.below(len as u64) as usize;
                 let w = (0.1 + (rnd.below(1 << 20) as f64 / (1u64 << 20) as f64) * 9.9) as $F;
-                let _ = t.update(i, w);
+                if t.update(i, w).is_ok() { ws[i] = w; }
             }
-            Some(t)
+            Some((t, ws))
         };
-        let params: Vec<f64> = match mk() { Some(t) => (0..t.len()).map(|i| t.get(i) as f64).collect(), None => vec![] };
+        // params = the weight list the call history describes (tracked by the harness, not read back from the tree)
+        let params: Vec<f64> = match mk() { Some((_, ws)) => ws.iter().map(|&x| x as f64).collect(), None => vec![] };
         $v.push(Entry { family: "WeightedTreeIndex", ft: $ft, params, variant: "after-updates",
-            make: Box::new(move || mk().and_then(bt::<$F>)) });
+            make: Box::new(move || mk().and_then(|(t, _)| bt::<$F>(t))) });
     }
 }} }
+
+/// integer trees with zero weights, built and then updated / pushed / popped a few times; params = the weight list the
+/// history describes (an index of weight 0 must never be returned, whatever the subtotals say)
+fn int_tree_entries(v: &mut Vec<Entry>, n: usize) {
+    for k in 0..n {
+        let mk = move || {
+            let mut rnd = crate::rng::Sm(0x1d7ee + k as u64 * 613);
+            let len = 3 + rnd.below(12) as usize;
+            let mut ws: Vec<u32> = (0..len).map(|_| { let x = rnd.below(8) as u32; if x < 3 { 0 } else { x - 2 } }).collect();
+            if ws.iter().all(|&x| x == 0) { ws[0] = 1; }
+            let mut t = WeightedTreeIndex::<u32>::new(ws.iter()).ok()?;
+            for _ in 0..(1 + k % 6) {
+                match rnd.below(6) {
+                    0 => { let w = rnd.below(5) as u32; if t.push(w).is_ok() { ws.push(w); } }
+                    1 => { if ws.len() > 2 { t.pop(); ws.pop(); } }
+                    _ => { let i = rnd.below(ws.len() as u64) as usize; let w = if rnd.below(3) == 0 { 0 } else { rnd.below(6) as u32 };
+                           if t.update(i, w).is_ok() { ws[i] = w; } }
+                }
+            }
+            if ws.iter().all(|&x| x == 0) { let i = ws.len() - 1; if t.update(i, 2).is_ok() { ws[i] = 2; } }
+            Some((t, ws))
+        };
+        let params: Vec<f64> = match mk() { Some((_, ws)) => ws.iter().map(|&x| x as f64).collect(), None => vec![] };
+        v.push(Entry { family: "WeightedTreeIndex", ft: "int", params, variant: "after-updates",
+            make: Box::new(move || mk().and_then(|(t, _)| bt::<u32>(t))) });
+    }
+}
 
 pub fn registry() -> Vec<Entry> {
     let mut v: Vec<Entry> = vec![];
@@ -294,6 +324,7 @@ pub fn registry() -> Vec<Entry> {
     float_tree_entries!(v, f64, "f64", ntrees);
     float_entries!(v, f32, "f32", WD32);
     float_entries!(v, f64, "f64", WD64);
+    int_tree_entries(&mut v, if cfg!(feature = "with_serde") { 40 } else { 24 });
     ent!(v, "StandardGeometric", "int", "-", [], bn::<_, u64>(StandardGeometric));
     for (n, p, var) in [(10u64, 0.0f64, "Constant"), (10, 1.0, "Constant"), (10, 0.3, "Binv"), (10, 0.7, "Binv flipped"), (19, 0.5, "Binv"), (100, 0.05, "Binv"),
                         (100, 0.3, "Btpe"), (100, 0.305, "Btpe"), (100, 0.7, "Btpe flipped"), (1000, 0.5005, "Btpe"), (21, 0.5, "Btpe"), (1000, 0.5, "Btpe"), (1u64 << 62, 0.5, "Btpe"),
